@@ -240,7 +240,7 @@ func runC04(t *rapid.T) {
 			o.Flags = rapid.IntRange(0, 5).Draw(t, "startfail") // 0: Start fails once; 4: the size query fails during Resume
 			ns := rapid.IntRange(0, 3).Draw(t, "nsub")
 			for j := 0; j < ns; j++ {
-				so := lop4{Kind: rapid.SampledFrom([]string{"mouse", "nomouse", "paste", "nopaste", "focus", "nofocus", "title", "curstyle", "cursor"}).Draw(t, "subop")}
+				so := lop4{Kind: rapid.SampledFrom([]string{"mouse", "nomouse", "paste", "nopaste", "focus", "nofocus", "title", "curstyle", "cursor", "show", "sync", "beep", "clipboard", "draw"}).Draw(t, "subop")}
 				so.Flags = rapid.IntRange(0, 7).Draw(t, "subflags")
 				so.CS = rapid.IntRange(0, 6).Draw(t, "subcs")
 				so.Title = "suspended-title"
@@ -249,7 +249,15 @@ func runC04(t *rapid.T) {
 		}
 		ops = append(ops, o)
 	}
-	ending := rapid.SampledFrom([]string{"fini", "fini", "suspend"}).Draw(t, "ending")
+	ending := rapid.SampledFrom([]string{"fini", "fini", "suspend", "suspend-fini", "failedresume-fini"}).Draw(t, "ending")
+	var finiSub []lop4 // calls made between the Suspend and the Fini of those endings
+	for i, nf := 0, rapid.IntRange(0, 3).Draw(t, "nfinisub"); i < nf; i++ {
+		so := lop4{Kind: rapid.SampledFrom([]string{"mouse", "paste", "focus", "title", "curstyle", "cursor", "show", "sync", "beep", "clipboard", "draw"}).Draw(t, "finisubop")}
+		so.Flags = rapid.IntRange(0, 7).Draw(t, "finisubflags")
+		so.CS = rapid.IntRange(0, 6).Draw(t, "finisubcs")
+		so.Title = "suspended-title"
+		finiSub = append(finiSub, so)
+	}
 	// a second application goroutine that changes modes while the final
 	// Fini/Suspend is in progress
 	var conc []lop4
@@ -351,6 +359,16 @@ func runC04(t *rapid.T) {
 		}
 		apply = func(o lop4) {
 			switch o.Kind {
+			case "show":
+				sc.Show()
+			case "sync":
+				sc.Sync()
+			case "beep":
+				_ = sc.Beep()
+			case "clipboard":
+				sc.SetClipboard([]byte("clip"))
+			case "draw":
+				sc.SetContent(o.Flags%5, 0, 'S', nil, tcell.StyleDefault.Foreground(tcell.ColorRed).Bold(true))
 			case "mouse":
 				var fl []tcell.MouseFlags
 				for _, f := range []tcell.MouseFlags{tcell.MouseButtonEvents, tcell.MouseDragEvents, tcell.MouseMotionEvents} {
@@ -483,6 +501,27 @@ func runC04(t *rapid.T) {
 			}
 		}
 		apply2 = apply
+		if ending == "suspend-fini" || ending == "failedresume-fini" {
+			// Fini finds the screen suspended (or suspended after a Resume
+			// whose tty start failed): it still closes the tty, once
+			if !doSuspend("before the final Fini") {
+				return
+			}
+			// whatever the application calls while suspended, Fini leaves the
+			// terminal as the shell had it
+			w.allowAppIO = true
+			for _, so := range finiSub {
+				apply(so)
+			}
+			if ending == "failedresume-fini" {
+				w.Tty.StartFailAt = w.Tty.Starts + 1
+				if err := sc.Resume(); err == nil {
+					w.fail("C04/resume:start-fail", "Resume returned nil although the tty failed to start")
+					return
+				}
+			}
+			ending = "fini"
+		}
 		// lateCall: a concurrent call linearizes before or after the final
 		// call.  What decides is the tty: bytes the second goroutine wrote
 		// before Stop belong to the running screen and must have been
